@@ -209,18 +209,39 @@ class Program:
         # process-wide singletons stored in another module: dawgie.context.fsm = dawgie.pl.state.FSM()
         self.singletons = {}
         for m in self.modules.values():
-            for n in ast.walk(m.tree):
-                if (
-                    isinstance(n, ast.Assign)
-                    and len(n.targets) == 1
-                    and isinstance(n.targets[0], ast.Attribute)
-                    and isinstance(n.value, ast.Call)
-                ):
+            # scopes: the module body and every function body, so that a value held in a local before it is published
+            # (`engine = Construct(...); dawgie.pl.schedule.ae = engine`) is followed to its constructor
+            scopes = [m.tree] + [x for x in ast.walk(m.tree) if isinstance(x, (ast.FunctionDef, ast.AsyncFunctionDef))]
+            for sc in scopes:
+                local_ctor = {}
+                body_nodes = []
+                todo_nodes = list(sc.body)
+                while todo_nodes:
+                    x = todo_nodes.pop()
+                    body_nodes.append(x)
+                    for ch in ast.iter_child_nodes(x):
+                        if not isinstance(ch, (ast.FunctionDef, ast.AsyncFunctionDef, ast.ClassDef, ast.Lambda)):
+                            todo_nodes.append(ch)
+                counts = {}
+                for n in body_nodes:
+                    if isinstance(n, ast.Name) and isinstance(n.ctx, ast.Store):
+                        counts[n.id] = counts.get(n.id, 0) + 1
+                for n in body_nodes:
+                    if isinstance(n, ast.Assign) and len(n.targets) == 1 and isinstance(n.targets[0], ast.Name) and isinstance(n.value, ast.Call) and counts.get(n.targets[0].id) == 1:
+                        local_ctor[n.targets[0].id] = n.value
+                for n in body_nodes:
+                    if not (isinstance(n, ast.Assign) and len(n.targets) == 1 and isinstance(n.targets[0], ast.Attribute)):
+                        continue
+                    v = n.value
+                    if isinstance(v, ast.Name) and v.id in local_ctor:
+                        v = local_ctor[v.id]
+                    if not isinstance(v, ast.Call):
+                        continue
                     parts = self.dotted(n.targets[0])
                     if not parts or parts[0] not in m.imports:
                         continue
                     tgt = self.canon('.'.join([m.imports[parts[0]]] + parts[1:]))
-                    cls = self.resolve_expr(n.value.func, m)
+                    cls = self.resolve_expr(v.func, m)
                     if cls in self.classes and not tgt.startswith('external:'):
                         self.singletons[tgt] = cls
 
